@@ -56,7 +56,7 @@ def hostile_pass(pid, a):
     import tempfile
 
     odir = tempfile.mkdtemp(prefix=f"verif-{pid}-optimised-")  # scratch, removed below
-    cmd = [sys.executable, "-O", "-B", os.path.abspath(__file__), pid, "--tier", "quick"]
+    cmd = [sys.executable, "-O", "-bb", "-W", "error", "-B", os.path.abspath(__file__), pid, "--tier", "quick"]
     if a.only:
         cmd += ["--only", a.only]
     child_env = dict(os.environ, **hostile_environment(), VERIF_TIER="quick", VERIF_EVIDENCE_DIR=odir, VERIF_REPLAY_TAG="H")
